@@ -1,9 +1,15 @@
 package main
 
 import (
+	"crypto/sha256"
+	"encoding/hex"
+	"errors"
 	"fmt"
 	"os"
 	"runtime"
+
+	"github.com/safing/portbase/database/record"
+	"github.com/safing/portbase/database/storage"
 
 	"verifharness/internal/vlib"
 )
@@ -30,12 +36,34 @@ func childMain(dir string) {
 		return
 	}
 	w.setup()
+	reopened := ""
+	if sp.Phase == "follow" && sp.Target == tFstree && w.fst != nil {
+		// the backend was just re-opened on the tree an earlier process left: what does it serve now?
+		reopened = getState(w)
+	}
 	marker(markBegin)
 	err := w.runOp()
 	marker(markEnd)
-	res := opResult{Returned: true}
+	res := opResult{Returned: true, Reopened: reopened}
 	if err != nil {
 		res.Err = err.Error()
 	}
 	vlib.ChildFinish(dir, res)
+}
+
+// getState reads the case's record through the backend and names what it got.
+func getState(w *world) string {
+	r, err := w.fst.Get(fstreeKey(w.sp))
+	if err != nil {
+		if errors.Is(err, storage.ErrNotFound) {
+			return "notfound"
+		}
+		return "error: " + err.Error()
+	}
+	wr, ok := r.(*record.Wrapper)
+	if !ok {
+		return "error: not a wrapper"
+	}
+	h := sha256.Sum256(wr.Data)
+	return "data:" + hex.EncodeToString(h[:8])
 }
